@@ -45,6 +45,8 @@ def harvest(case, extra_kwargs=None):
     mc = r["client"]
     rh = mc.results_handler
     p = case["params"]
+    out["nonrep_ids"] = list(rh.nonreporting_units["geographic_unit_fips"])
+    out["rep_ids"] = list(rh.reporting_units["geographic_unit_fips"])
     out["unit"] = {}
     for e, df in rh.unit_data.items():
         out["unit"][e] = df.to_dict("records")
@@ -211,6 +213,8 @@ def run_family(chk, worker, jobs, rule, classify, min_ok_frac=0.25, shard=6, ext
                 mismatch.setdefault(j, []).append((lab, v))
     for j, o in enumerate(outs):
         replay = {"kind": "gen_case", "seed": o["seed"], "kw": o["kw"]}
+        if "stream" in o:
+            replay["stream"] = o["stream"]
         case = None
         for f in o["s"]:
             if case is None:
